@@ -110,3 +110,32 @@ def external_mutations(repo: Repo, props: set, exclude_class: str = None, exclud
                         isinstance(t.value, ast.Name) and t.value.id == 'self'):
                     out.append((m, qual, node))
     return out
+
+
+def writer_closure(repo: Repo, cls_names, roots) -> set:
+    """Methods allowed to write a class's state: the given roots plus every private helper (name starts with `_`) of the
+    class(es) whose call sites ALL lie inside allowed methods of these classes - an extracted helper such as
+    `__record_bid`, called only from take_bid, writes on take_bid's behalf.  Returns {(class, method)}."""
+    cls_names = [cls_names] if isinstance(cls_names, str) else list(cls_names)
+    allowed = {(c, m) for c in cls_names for m in roots}
+    sites = {}      # helper name -> [(class, method)] of call sites anywhere in the package
+    for m, c, fn in repo.all_functions():
+        for n in ast.walk(fn):
+            if isinstance(n, ast.Call) and isinstance(n.func, ast.Attribute):
+                sites.setdefault(n.func.attr, []).append((c.name if c is not None else None, fn.name))
+            elif isinstance(n, ast.Attribute) and isinstance(n.ctx, ast.Load):
+                # a bound method taken as a value (callback) counts as a call site of unknown caller
+                pass
+    changed = True
+    while changed:
+        changed = False
+        for cn in cls_names:
+            ci = repo.cls(cn)
+            for mname in ci.methods:
+                if (cn, mname) in allowed or not mname.startswith('_') or (mname.startswith('__') and mname.endswith('__')):
+                    continue
+                callers = sites.get(mname, []) + sites.get(f'_{cn}{mname}', [])
+                if callers and all((cc, cm) in allowed or (cc in cls_names and (cn, cm) in allowed) for cc, cm in callers):
+                    allowed.add((cn, mname))
+                    changed = True
+    return allowed
